@@ -103,6 +103,58 @@ def layer_checks(job):
         n += 1
         if rel(e2, e1) > TOL or rel(d2[0] + d2[1], d1[0]) > 1e-9:
             viol.append({"site": "layer:baseline:%s" % nm, "detail": {"err_e": rel(e2, e1), "err_d": rel(d2[0] + d2[1], d1[0])}})
+    # ---- native baselines: genuinely polarised input, exchanged channels
+    Xp = np.concatenate([X1, X1], axis=0)
+    Xp[1, 0] *= rng.uniform(0.3, 0.9, 30)
+    Xp[1, 1:] = Xp[1, 1:] * rng.uniform(0.5, 1.5, (4, 30))
+    for nm in ("lda_x", "gga_x_pbe", "gga_x_chachiyo", "nlda_x_damp", "gga_c_pbe"):
+        fn = getattr(baselines, nm)
+        ea, da = fn(Xp.copy())
+        eb, db = fn(Xp[::-1].copy())
+        n += 1
+        ea, eb = np.asarray(ea), np.asarray(eb)
+        sw = (ea.ndim == 2)
+        if rel(eb[::-1] if sw else eb, ea) > TOL or rel(np.asarray(db)[::-1], np.asarray(da)) > 1e-9:
+            viol.append({"site": "layer:baseline-spin-swap:%s" % nm, "detail": {"err_e": rel(eb[::-1] if sw else eb, ea)}})
+    # ---- libxc-backed baselines (every code of the live tables, incl. same-spin / opposite-spin splits)
+    npt = 40
+    rho = np.asfortranarray(np.exp(rng.uniform(-3, 1, (2, npt))))
+    g = rng.normal(size=(2, 3, npt)) * rho[:, None] ** (4.0 / 3)
+    sig = np.asfortranarray(np.stack([(g[0] * g[0]).sum(0), (g[0] * g[1]).sum(0), (g[1] * g[1]).sum(0)]))
+    tau = np.asfortranarray(sig[::2] / (8 * rho) + rng.uniform(0.1, 2.0, (2, npt)) * rho ** (5.0 / 3))
+    codes = []
+    for tab in ("LDA_CODES", "GGA_CODES", "MGGA_CODES", "SS_GGA_CODES", "OS_GGA_CODES"):
+        codes += sorted(getattr(baselines, tab, {}).keys())
+    res = {}
+    for code in codes:
+        def call(r, s_, t_):
+            out = baselines.get_libxc_baseline(code, (np.asfortranarray(r), np.asfortranarray(s_), np.asfortranarray(t_)))
+            return [np.asarray(x) for x in out]
+        a = call(rho, sig, tau)
+        b = call(rho[::-1], sig[::-1], tau[::-1])
+        res[code] = a
+        n += 1
+        bad = rel(b[0], a[0]) > TOL
+        for xa, xb in zip(a[1:], b[1:]):
+            bad = bad or rel(xb[::-1], xa) > 1e-9
+        if bad:
+            viol.append({"site": "layer:libxc-baseline-spin-swap:%s" % code, "detail": {"err_e": rel(b[0], a[0])}})
+        # closed shell through both paths
+        tot = rho[0] + rho[1]
+        gt = g[0] + g[1]
+        st = (gt * gt).sum(0)
+        tt = tau[0] + tau[1]
+        u = call(tot[None], st[None], tt[None])
+        d = call(np.stack([tot, tot]) / 2, np.stack([st, st, st]) / 4, np.stack([tt, tt]) / 2)
+        n += 1
+        if rel(d[0], u[0]) > TOL:
+            viol.append({"site": "layer:libxc-baseline-closed-shell:%s" % code, "detail": {"err_e": rel(d[0], u[0])}})
+    for os_code in getattr(baselines, "OS_GGA_CODES", {}):
+        ss_code, tot_code = "SS_" + os_code[3:], os_code[3:]
+        if ss_code in res and tot_code in res:
+            n += 1
+            if rel(res[os_code][0] + res[ss_code][0], res[tot_code][0]) > TOL:
+                viol.append({"site": "layer:libxc-baseline-ss+os=total:%s" % tot_code, "detail": {}})
     return {"viol": viol, "n": n}
 
 
